@@ -410,6 +410,31 @@ func genFields(r *kit.Rng, c gcfg, prof, path string) []field {
 			}
 		}
 	}
+	// field names that differ from a configured sampling-key / trace-ID / parent-ID field name only in
+	// letter case: other fields as far as the configuration goes; alone or next to the exact name
+	// (the shuffle below gives both orders)
+	has := func(k string) bool {
+		for _, f := range fs {
+			if f.k.s == k {
+				return true
+			}
+		}
+		return false
+	}
+	pVarKey, pVarID := 6, 7
+	if prof == "fwd" {
+		pVarKey, pVarID = 14, 5
+	}
+	for _, k := range c.sk {
+		if v := caseVariant(r, k); v != k && !has(v) && r.Chance(pVarKey) {
+			add(v, genScalar(r, js))
+		}
+	}
+	for i, k := range append(append([]string{}, c.tn...), c.pn...) {
+		if v := caseVariant(r, k); v != k && !has(v) && r.Chance(pVarID) {
+			add(v, idVal(r, js, fmt.Sprintf("V%d", i)))
+		}
+	}
 	nfill := r.Intn(3)
 	if prof == "fwd" {
 		nfill = 1 + r.Intn(5)
@@ -449,6 +474,45 @@ func genFields(r *kit.Rng, c gcfg, prof, path string) []field {
 		}
 	}
 	return fs
+}
+
+// caseVariant changes the case of ASCII letters of k: the first letter, every letter, or the first
+// letter of the last dotted segment (traceId -> TraceId / TRACEID, http.status -> http.Status).
+func caseVariant(r *kit.Rng, k string) string {
+	b := []byte(k)
+	flip := func(i int) {
+		switch {
+		case b[i] >= 'a' && b[i] <= 'z':
+			b[i] -= 32
+		case b[i] >= 'A' && b[i] <= 'Z':
+			b[i] += 32
+		}
+	}
+	isL := func(c byte) bool { return c >= 'a' && c <= 'z' || c >= 'A' && c <= 'Z' }
+	switch r.Intn(3) {
+	case 0:
+		for i := range b {
+			if isL(b[i]) {
+				flip(i)
+				break
+			}
+		}
+	case 1:
+		for i := range b {
+			if b[i] >= 'a' && b[i] <= 'z' {
+				b[i] -= 32
+			}
+		}
+	default:
+		start := strings.LastIndexByte(k, '.') + 1
+		for i := start; i < len(b); i++ {
+			if isL(b[i]) {
+				flip(i)
+				break
+			}
+		}
+	}
+	return string(b)
 }
 
 func endsWithTime(n node) bool {
